@@ -222,6 +222,11 @@ def replay(case, acc):
     check(acc, (), case['text'], case.get('origin', 'replay'))
 
 
+from harness.shrink import text_shrinker  # noqa: E402
+shrink = text_shrinker(replay, 'text')
+
+
+
 def plan(tier, seed):
     from harness import refgate
     refgate.run(200 if tier == 'quick' else 2000)
